@@ -19,17 +19,34 @@
   `Jmes/Proofs/C09CTick*.lean` names the file:line of the Go loop header it mirrors (as of the current /repo), with
   the same trip-count expression and the same guard.  Where Go's guard is what bounds the loop by the input
   (`j < step && len(s) > 0`, `if sz == 0 { return }`, `if c := strings.Count(s, p); n > c { n = c }`) the mirror has the
-  guard and the bound theorem uses it; the `…NoGuard…` / `…Mutant…` definitions show that without the guard the result
-  is unchanged while the cost becomes the magnitude of the integer, and that no bound in the size of the input exists.
+  guard and the bound theorem uses it; the `…NoGuard…` / `…NoClamp…` / `…Mutant…` definitions show what happens
+  without it: the cost becomes the magnitude of the integer and no bound in the size of the input exists.  For the
+  guards of slice.go:250/:266 and the clamp string.go:956 the RESULT is unchanged by the deletion (invisible to
+  result-level theorems and tests); for the `sz == 0` exit of `find_*` and the clamp string.go:938 it is not.  The
+  honest statement of every such demo — one deletion at a time, unboundedness on a fixed NON-EMPTY subject that reaches
+  the mutated line in Go, the deletions that do change a result — is in `Jmes/Proofs/C09EMutants.lean`; that the
+  counter of `forT`/`forBrkT` is never what ends a Go `for cond { … }` loop is in `Jmes/Proofs/C09EFuel.lean`.
 
   Units: one tick = one loop iteration (one rune decoded, one candidate offset of a substring search, one element
   visited), one cell reserved by `make`/`Grow`, or one byte appended to a `strings.Builder`.  A candidate offset of
   `strings.Index`/`LastIndex`/`Count` costs at most `|p|` byte comparisons in the naive search the model uses (Go's
   implementation is `O(|s| + |p|)`); amortised growth of `append`/`Builder` is the Go runtime's and is not modelled.
+  In the lexer (section 8) the unit is sharper: one tick = ONE CALL of `(*Lexer).decodeRune` (lexer.go:396) — the
+  decode at the head of each loop iteration, each look-ahead `l.decodeRune(start+sz)` of `Next` (on the branches where
+  Go makes it, failing or not) and the second decode after a backslash in a delimited token — plus one tick per
+  `Next` call; the rune `Next` dispatches on is the one decoded (and charged) by the last whitespace-loop iteration.
 
-  NOT covered: the recursion of the parser and of the evaluator itself (only their loops over arrays/strings are
+  NOT covered HERE: the recursion of the parser and of the evaluator itself (only their loops over arrays/strings are
   instrumented; `parse_depth_linear` restates the first-wave fuel result), `sort.Stable` (library), the decimal
-  arithmetic.
+  arithmetic.  The fourth wave (`Jmes/Properties/C09E.lean`) instruments the evaluator's recursion (`ievalT`: one tick
+  per `evaluate` call, these loops with `ievalT` as the sub-expression evaluator) and bounds a whole evaluation.
+
+  NEVER charged in this development (a tick is a loop iteration, not a machine operation): the byte comparisons inside
+  one candidate offset of a substring search (up to `|p|` each — the bounds of `find_*`, `split`, `replace` below are
+  in CANDIDATE OFFSETS, not in bytes compared; Go's `strings.Index` is `O(|s| + |p|)`), the parse of a count / offset
+  argument by `toInt` (`strconv`/decimal parsing, linear in the length of the literal's text — which is part of the
+  expression —, not in its magnitude), the `Less` comparisons of `sort.Stable` (`O(key bytes)` each), and the test
+  `old == new` of `strings.Replace` (`O(min(|old|, |new|))`).
 -/
 import Jmes.Proofs.C09CTick
 import Jmes.Proofs.C09CTickStr
@@ -74,7 +91,7 @@ theorem sliceStep_resource (v : Val) : ∀ start stop step : Int,
   fun start stop step => ⟨sliceStepT_fst v start stop step, sliceStepT_snd_le v start stop step⟩
 
 /-- in code points: a string of `n` code points costs at most `8 n` ticks for a positive step, and for a negative step
-    on valid UTF-8 -/
+    on valid UTF-8 (for ANY bytes, `≤ 8·(code points) + (bytes)`: `C09E.sliceStep_string_resource_any`) -/
 theorem sliceStep_string_resource (cs : List Nat) (hcs : Utf8.Scalars cs) : ∀ start stop step : Int,
     Res.ok (Val.str (sliceStepStrT (encodeAll cs) start stop step).1) = sliceStep (.str (encodeAll cs)) start stop step ∧
     (sliceStepStrT (encodeAll cs) start stop step).2 ≤ 8 * cs.length := by
@@ -95,7 +112,10 @@ example : (sliceStepT (.str [0x61, 0x62, 0x63]) 0 (2 ^ 63 - 1) (2 ^ 62)).1 = .ok
 /-- the skipping loop slice.go:250 `for j := 1; j < step && len(s) > 0; j++` with and without its guard: same
     string, `min k n` ticks against `k` ticks, and no bound in the size of the string for the latter.  This is the
     change "`j < step && len(s) > 0` → `j < step`" that keeps every result and is invisible to result-level
-    theorems. -/
+    theorems.  (The unboundedness witness of `skipNoGuardT_unbounded` is the exhausted string.  The same for a fixed
+    non-empty subject, for the backward loop slice.go:266, and with the mutant carried through all of `sliceStep` on
+    "ab": `C09E.skipNoGuard_unbounded_nonempty`, `C09E.skip_bwd_guard_matters`, `C09E.sliceStep_fwd_guard_matters`,
+    `C09E.sliceStep_bwd_guard_matters` in `Jmes/Proofs/C09EMutants.lean`.) -/
 theorem skip_guard_matters (k : Nat) (s : Bytes) :
     (skipFwdT k s).1 = dropRunes k s ∧ (skipFwdT k s).2 = min k (runeCount s) ∧
     (skipNoGuardT k s).1 = dropRunes k s ∧ (skipNoGuardT k s).2 = k ∧
@@ -109,7 +129,10 @@ example : (skipFwdT (2 ^ 62) [0x61]).2 = 1 ∧ (skipNoGuardT (2 ^ 62) [0x61]).2 
 /-! ## 2. `find_first` / `find_last` (string.go:30-454) -/
 
 /-- `find_first(value, sub)` / `find_last(value, sub)`, ANY two values: model result, and at most `2·(|value| + 1)`
-    ticks (candidate offsets of `strings.Index`/`LastIndex` + the final `RuneCountInString`) -/
+    ticks — where a tick of the search is ONE CANDIDATE OFFSET of `strings.Index`/`LastIndex` (the comparison of `sub`
+    at that offset, up to `|sub|` bytes in the naive search of the model, is not charged: the bound is in candidate
+    offsets, not in bytes compared; Go's `strings.Index` is `O(|value| + |sub|)`) and a tick of the final
+    `RuneCountInString` is one code point -/
 theorem find_resource (value sub : Val) :
     (findFirstT value sub).1 = findFirst value sub ∧ (findFirstT value sub).2 ≤ 2 * (strLen value + 1) ∧
     (findLastT value sub).1 = findLast value sub ∧ (findLastT value sub).2 ≤ 2 * (strLen value + 1) :=
@@ -138,8 +161,12 @@ example : (findBetweenT false (.str [0x61, 0x62, 0x63]) (.str [0x63]) (.num (.in
       (.num (.int .i64 (2 ^ 63 - 1)))).1 = .ok (.num (.int .i64 2)) :=
   ⟨findBetweenT_snd_le_int false [0x61, 0x62, 0x63] [0x63] _ _, by rw [findBetweenT_fst]; rfl⟩
 
-/-- each of the two protections of the offset loop bounds it on its own (`≤ |s|` from the pre-check `i > len(s)`,
-    `≤ runeCount s + 1` from the exit `sz == 0`); with neither the loop costs the magnitude of `start` -/
+/-- the offset loops AS GO HAS THEM, with both protections (the pre-check / clamp `> len(s)` and the exit `sz == 0`):
+    they compute the model's conversions and satisfy both bounds, `≤ |s|` and `≤ runeCount s + 1`.  This theorem
+    deletes nothing.  That EACH protection ALONE still bounds the loop by the string (`≤ |s|` with only the
+    pre-check, `≤ runeCount s + 1` with only the exit — where deleting the exit alone changes the result of
+    `find_first('é', '', `2`)`), and that only BOTH deleted together (`startOffsetMutantT`) cost the magnitude of
+    `start`, is `C09E.find_offset_each_guard_suffices` in `Jmes/Proofs/C09EMutants.lean`. -/
 theorem find_offset_guard_matters (s : Bytes) :
     (∀ i : Int, (startOffsetT s i).1 = startOffset s i ∧ (startOffsetT s i).2 ≤ s.length ∧
       (startOffsetT s i).2 ≤ runeCount s + 1) ∧
@@ -151,9 +178,12 @@ theorem find_offset_guard_matters (s : Bytes) :
 /-! ## 3. `pad_left` / `pad_right` (string.go:504-742): the one place where an integer IS the size of the result -/
 
 /-- `pad_left/pad_right(value, width, pad)` and the two-argument forms, ANY values: model result; the ticks are at most
-    `5·(width + |value| + |pad| + 1)`, i.e. linear in the size of the RESULT (which has `max width (code points of
-    value)` code points, `C09.padWith_codepoints`); and when nothing is added (`width ≤` the number of code points,
-    every negative width) at most `|value| + |pad|`. -/
+    `5·(width + |value| + |pad| + 1)` — a bound by `padWidth width`, the MAGNITUDE of the integer argument itself.
+    This is the known finding KF14 (section 10): the width is the size of the padded string (`max width (code points
+    of value)` code points, `C09.padWith_codepoints`), which need not be the result of the expression.  The reading
+    "linear in the size of the result of `pad`" — no width in the bound wherever the model builds the result
+    (`width - code points ≤ padLimit`) — is `C09E.pad_resource_result`.  When nothing is added (`width ≤` the number
+    of code points, every negative width) the cost is at most `|value| + |pad|` (`pad_small_resource`). -/
 theorem pad_resource (left : Bool) (value pad : Val) : ∀ width : Val,
     (padT true value width pad).1 = padLeft value width pad ∧
     (padT false value width pad).1 = padRight value width pad ∧
@@ -192,7 +222,10 @@ example : (reverseT (.str [0x68, 0xC3, 0xA9])).1 = .ok (.str [0xC3, 0xA9, 0x68])
 /-- `split(value, sep)` and `split(value, sep, count)`, ANY values: model result; on strings at most `5·(|s| + 1)`
     ticks for EVERY `count` (an integer of any magnitude, a float, a non-number), and `4·(|s| + 1) + pieces` in terms
     of the result.  `make([]any, n+1)` (string.go:960 / :942) is charged `n + 1` cells with the `n` that Go has
-    clamped by `strings.Count(s, p)` (string.go:956) resp. by the number of code points (string.go:938). -/
+    clamped by `strings.Count(s, p)` (string.go:956) resp. by the number of code points (string.go:938).
+    A tick of `strings.Count` / `strings.Index` is ONE CANDIDATE OFFSET (the comparison of `sep` there, up to `|sep|`
+    bytes in the naive search, is not charged): the bound is in candidate offsets, iterations and cells, not in bytes
+    compared.  The cost bounds for NON-string arguments (the failing paths): `C09E.split_replace_resource_any`. -/
 theorem split_resource (value sep : Val) (s p : Bytes) : ∀ count : Val,
     (splitT value sep).1 = split value sep ∧
     (splitCountT value sep count).1 = splitCount value sep count ∧
@@ -211,7 +244,11 @@ example : (splitCountT (.str [0x61, 0x2C, 0x62, 0x2C, 0x63]) (.str [0x2C]) (.num
   ⟨by rw [splitCountT_fst]; rfl, splitCountT_snd_le_int _ _ _, splitCountT_snd_le_int _ _ _⟩
 
 /-- with the clamp string.go:956 deleted the pieces are the same and `make` is charged the count argument: no bound
-    in the size of the string exists -/
+    in the size of the string exists.  (The witness of `splitSepNoClampT_unbounded` is the EMPTY subject, which Go
+    answers at string.go:933 before the mutated line; for the subject "a" and counts `n ≥ 1`, which reach it:
+    `C09E.splitSepNoClampT_unbounded_reachable`.  The other clamp, string.go:938 (empty separator), whose deletion
+    CHANGES the result — `split('ab', '', `5`)` becomes `["a","b","","","",""]` — and costs `2n + 1`:
+    `C09E.split_empty_clamp_matters`, `C09E.splitEmptyNoClampT_example`, in `Jmes/Proofs/C09EMutants.lean`.) -/
 theorem split_clamp_matters (p : Bytes) (hp : p ≠ []) :
     (∀ (s : Bytes) (n : Nat), (splitSepNoClampT s p n).1 = splitOn s p (some n)) ∧
     (∀ (s : Bytes) (count : Option Nat), (splitSepT s p count).1 = splitOn s p count ∧
@@ -226,7 +263,9 @@ theorem split_clamp_matters (p : Bytes) (hp : p ≠ []) :
 /-- `replace(value, old, new)` and `replace(value, old, new, count)`, ANY values: model result; on strings, for EVERY
     `count`, either an error at no cost or a string `r` at `≤ 4·(|s| + |r| + 1)` ticks; in the inputs only:
     `≤ 4·(2·|s| + (|s| + 1)·|new| + 1)`.  The count is clamped by `strings.Count` inside `strings.Replace` before
-    `Grow` and before the loop. -/
+    `Grow` and before the loop.  A tick of `strings.Count` / `strings.Index` is ONE CANDIDATE OFFSET (up to `|old|`
+    byte comparisons each, not charged); the test `old == new` at the head of `strings.Replace` is not charged either.
+    The cost bounds for NON-string arguments: `C09E.split_replace_resource_any`. -/
 theorem replace_resource (value old new : Val) (s po pn : Bytes) : ∀ count : Val,
     (replaceT value old new).1 = replace value old new ∧
     (replaceCountT value old new count).1 = replaceCount value old new count ∧
@@ -270,7 +309,10 @@ theorem flatten_resource (v : Val) (t : ATag) (a : List Val) :
 
 /-- the projection loops (array.go:277 `projectArray`, :163 `filter`, :184 `filterAndProjectArray`,
     :214 `flattenAndProjectArray`, :255 `mapArray`): model results on the results of the sub-expression, and at most
-    `3` ticks per element of their own plus the ticks of the evaluations -/
+    `3` ticks per element of their own plus the ticks of the evaluations — `evalCost fT xs` IS the sum over the elements
+    `x` of `xs` of the ticks `(fT x).2` (`evalCost`, by definition), for an ARBITRARY evaluator `fT`.  With the
+    instrumented evaluator itself as `fT` (cost ≤ 1 + 3·len + Σ ticks of the sub-expression at each element):
+    `C09E.projection_composed`; summed over a whole expression: `C09E.ieval_instrumented`. -/
 theorem projection_resource (cT fT : Val → T (Res Val)) (v : Val) (t : ATag) (xs : List Val) :
     (projectArrayT fT v).1 = projectArray (fun x => (fT x).1) v ∧
     (filterArrayT cT v).1 = filterArray (fun x => (cT x).1) v ∧
@@ -318,25 +360,41 @@ theorem zip_resource (root : Val) (args : List INode) (cur : Val) (env : Env) (c
 /-! ## 8. The lexer (lexer.go) and the parser's recursion -/
 
 /-- all the `(*Lexer).Next` calls of one `Parse(expr)`: the instrumented lexer returns the model's token stream in at
-    most `4·|expr| + 4` ticks — a single forward pass: each continuing iteration of each loop of lexer.go (the
-    whitespace loop :28, `jsonLiteral` :410, `numberLiteral` :440, `quotedIdentifier` :458, `stringLiteral` :488,
-    `unquotedIdentifier` :518, `variable` :557) advances the position by the size of a decoded rune — and there are
-    at most `|expr| + 1` tokens. -/
+    most `4·|expr| + 4` ticks, where a tick is ONE CALL of `(*Lexer).decodeRune` — every one Go makes: the decode at
+    the head of each loop iteration (the iteration that leaves the loop included), every look-ahead of `Next`
+    (lexer.go:65, :126, :139, :158, :185, :204, :223, :250, :253, :312, :365, and :544 in `variable`), the second
+    decode after a backslash (:429, :477, :507), successful or not — or one `Next` call.  A single forward pass: each
+    continuing iteration of each loop of lexer.go (the whitespace loop :28, `jsonLiteral` :410, `numberLiteral` :440,
+    `quotedIdentifier` :458, `stringLiteral` :488, `unquotedIdentifier` :518, `variable` :557) advances the position
+    by the size of a decoded rune — and there are at most `|expr| + 1` tokens.  (That the loop bounds `|expr|`,
+    `|expr| + 1` carried by the mirrors are never what ends a loop: `Jmes/Proofs/C09EFuelLex.lean`.) -/
 theorem lexer_resource (expr : Bytes) :
     (lexAllT expr).1 = lexAll expr ∧ (lexAllT expr).2 ≤ 4 * expr.length + 4 ∧
     (lexAll expr).1.length ≤ expr.length + 1 :=
   ⟨lexAllT_fst expr, lexAllT_snd_le expr, lexAll_length expr⟩
 
-/-- one `Next` (after the whitespace loop): the model's token, at a cost of at most its own length plus one -/
+/-- `foo[?bar > `1`]` (15 bytes): 18 `decodeRune` calls in 7 `Next` calls -/
+example : (lexAllT [0x66, 0x6F, 0x6F, 0x5B, 0x3F, 0x62, 0x61, 0x72, 0x20, 0x3E, 0x20, 0x60, 0x31, 0x60, 0x5D]).2 = 25 := by
+  decide
+
+/-- one `Next` after its whitespace loop (whose last decode is the rune `Next` dispatches on, charged there): the
+    model's token, in at most as many `decodeRune` calls as the token has bytes, plus one (attained by `[*x`: two
+    look-aheads for the one-byte token `[`); after a lexical error, at most the remaining bytes plus two -/
 theorem lexToken_resource (s : Bytes) :
     (lexTokenT s).1 = lexToken s ∧ (lexTokenT s).2 ≤ tokBound s (lexToken s) :=
   ⟨lexTokenT_fst s, lexTokenT_snd_le s⟩
 
-/-- a 3-byte identifier costs at most 4 ticks: `tokBound` of a token spanning `n` bytes is `n + 1` -/
-example : (lexTokenT [0x66, 0x6F, 0x6F, 0x2E]).2 ≤ 4 := by
+/-- a 3-byte identifier costs at most 4 decodes (in fact 3: `o`, `o`, and the `.` that stops the loop; the `f` was
+    decoded by the whitespace loop): `tokBound` of a token spanning `n` bytes is `n + 1` -/
+example : (lexTokenT [0x66, 0x6F, 0x6F, 0x2E]).2 ≤ 4 ∧ (lexTokenT [0x66, 0x6F, 0x6F, 0x2E]).2 = 3 := by
   have := lexTokenT_snd_le [0x66, 0x6F, 0x6F, 0x2E]
   have e : lexToken [0x66, 0x6F, 0x6F, 0x2E] = .ok (⟨.unquotedIdentifier, [0x66, 0x6F, 0x6F]⟩, 3) := by rfl
-  rw [e] at this; exact this
+  rw [e] at this; exact ⟨this, by decide⟩
+
+/-- look-aheads are charged where Go makes them: `<=` and a lone `<` one decode each, `[*x` two, `%` none; an escaped
+    rune in a literal two -/
+example : (lexTokenT [0x3C, 0x3D]).2 = 1 ∧ (lexTokenT [0x3C]).2 = 1 ∧ (lexTokenT [0x5B, 0x2A, 0x78]).2 = 2 ∧
+    (lexTokenT [0x25]).2 = 0 ∧ (lexTokenT [0x27, 0x5C, 0x27, 0x27]).2 = 3 := by decide
 
 /-- the parser (first wave, `Jmes/Proofs/Fuel.lean`): the recursion budget `Parser.fuelFor n = 8 n + 32`, linear in
     the number `n ≤ |expr| + 1` of tokens, is never exhausted — the nesting depth of the recursive descent is linear
